@@ -490,3 +490,90 @@ V("c19-module-level-cache", A, "C19", "C19.c",
   ("transforms", 'MISSING_DATABASE = "missing_database"\n', 'MISSING_DATABASE = "missing_database"\n_SEEN_DATABASES = {}\n'),
   ("transforms", "        db_name = ident.this\n", "        db_name = ident.this\n        _SEEN_DATABASES[db_name] = True\n"))
 V("c19-neutral-rlock", N, "C19", None, ("instance", "self._connect_lock = threading.Lock()", "self._connect_lock = threading.RLock()"))
+
+# ---------------------------------------------------------------- neutral refactorings (must stay silent everywhere they touch)
+V("neutral-fetchmany-start-var", N, "C05", None,
+  ("cursor", """        tslice = self._arrow_table.slice(offset=self._arrow_table_fetch_index or 0, length=size)
+
+        if self._arrow_table_fetch_index is None:
+            self._arrow_table_fetch_index = size
+        else:
+            self._arrow_table_fetch_index += size
+""", """        start = self._arrow_table_fetch_index or 0
+        tslice = self._arrow_table.slice(start, size)
+        self._arrow_table_fetch_index = start + size
+"""))
+V("neutral-patch-with-exitstack", N, ["C20", "C18"], None,
+  ("__init__", """    stack = contextlib.ExitStack()
+
+    try:
+        for im in""", """    try:
+      with contextlib.ExitStack() as stack:
+        for im in"""),
+  ("__init__", """        yield None
+    finally:
+        stack.close()
+        fs.duck_conn.close()""", """        yield None
+    finally:
+        fs.duck_conn.close()"""))
+V("neutral-connect-helper-exists", N, ["C14", "C03", "C01", "C19", "C18"], None,
+  ("conn", """        # create database if needed
+        if (
+            create_database
+            and self.database
+            and not duck_conn.execute(
+                f\"\"\"select * from information_schema.schemata
+                where upper(catalog_name) = '{self.database}'\"\"\"
+            ).fetchone()
+        ):""", """        def db_exists() -> bool:
+            return bool(
+                duck_conn.execute(
+                    f\"\"\"select * from information_schema.schemata
+                where upper(catalog_name) = '{self.database}'\"\"\"
+                ).fetchone()
+            )
+
+        # create database if needed
+        if create_database and self.database and not db_exists():"""))
+V("neutral-status-dict-dispatch", N, ["C04", "C06"], None,
+  ("cursor", """        elif cmd == "INSERT":
+            (affected_count,) = self._duck_conn.fetchall()[0]
+            result_sql = SQL_INSERTED_ROWS.substitute(count=affected_count)
+
+        elif cmd == "UPDATE":
+            (affected_count,) = self._duck_conn.fetchall()[0]
+            result_sql = SQL_UPDATED_ROWS.substitute(count=affected_count)
+
+        elif cmd == "DELETE":
+            (affected_count,) = self._duck_conn.fetchall()[0]
+            result_sql = SQL_DELETED_ROWS.substitute(count=affected_count)
+""", """        elif cmd in ("INSERT", "UPDATE", "DELETE"):
+            (affected_count,) = self._duck_conn.fetchall()[0]
+            templates = {"INSERT": SQL_INSERTED_ROWS, "UPDATE": SQL_UPDATED_ROWS, "DELETE": SQL_DELETED_ROWS}
+            result_sql = templates[cmd].substitute(count=affected_count)
+"""))
+V("neutral-execute-early-guard-helper", N, ["C03", "C07"], None,
+  ("cursor", """        if no_database and not self._conn.database_set:
+            raise snowflake.connector.errors.ProgrammingError(""", """        needs_db = no_database and not self._conn.database_set
+        if needs_db:
+            raise snowflake.connector.errors.ProgrammingError("""))
+V("neutral-sqlstate-local", N, "C07", None,
+  ("cursor", """        except snowflake.connector.errors.ProgrammingError as e:
+            self._sqlstate = e.sqlstate
+            raise e""", """        except snowflake.connector.errors.ProgrammingError as err:
+            state = err.sqlstate
+            self._sqlstate = state
+            raise"""))
+V("neutral-variables-compiled-pattern", N, "C15", None,
+  ("variables", """            sql = re.sub(rf"\\${name}(?!\\w)", lambda _, v=value: v, sql, flags=re.IGNORECASE)""",
+   """            sql = re.sub(rf"\\${name}(?![A-Za-z0-9_])", lambda _, v=value: v, sql, flags=re.IGNORECASE)"""))
+V("neutral-merge-then-name-lower", N, ["C12", "C02"], None,
+  ("transforms_merge", """            if isinstance(then, exp.Var) and then.name.upper() == "DELETE":
+                delete_sql""", """            if isinstance(then, exp.Var) and then.name.lower() == "delete":
+                delete_sql"""))
+V("neutral-server-token-helper", N, "C17", None,
+  ("server", """    token = auth[17:-1]
+
+    if not (conn := sessions.get(token)):""", """    token = auth[17:-1]
+    conn = sessions.get(token)
+    if conn is None:"""))
